@@ -282,39 +282,48 @@ func ruleEmptyOnly(c *Ctx, remove *ssa.Function, dirT *types.Named) {
 				c.OK("R3", con, ci.Pos(), "on the recursive-remove path only (flag differs from the constant Remove passes)")
 				continue
 			}
-			// (b)/(c): facts mention a *Dir type assertion
-			okb, okc := false, false
-			for k := range facts.At(ci.Block) {
-				// comma-ok type assertion to *Dir known false
-				if ex, ok := k.v.(*ssa.Extract); ok && ex.Index == 1 {
-					if ta, ok := ex.Tuple.(*ssa.TypeAssert); ok && isPtrTo(ta.AssertedType, dirT) && !k.pol {
-						okb = true
-					}
+			// (b)/(c): every way of reaching the removal established "not a directory"
+			// or "that directory is empty" (a merged condition reaches it on two edges)
+			var dirAsserts []ssa.Value
+			eachInstr(ri.fn, func(b *ssa.BasicBlock, i int, in ssa.Instruction) {
+				if ta, ok := in.(*ssa.TypeAssert); ok && isPtrTo(ta.AssertedType, dirT) {
+					dirAsserts = append(dirAsserts, append(resultN(ta, 0), ta)...)
 				}
-				if bo, ok := k.v.(*ssa.BinOp); ok {
-					var other ssa.Value
-					if kv, ok := constInt(bo.Y); ok && kv == 0 {
-						other = bo.X
-					} else if kv, ok := constInt(bo.X); ok && kv == 0 {
-						other = bo.Y
-					} else {
-						continue
+			})
+			okb, okc := false, false
+			established := func(fs factSet) bool {
+				for k := range fs {
+					if ex, ok := k.v.(*ssa.Extract); ok && ex.Index == 1 {
+						if ta, ok := ex.Tuple.(*ssa.TypeAssert); ok && isPtrTo(ta.AssertedType, dirT) && !k.pol {
+							okb = true
+							return true
+						}
 					}
-					empty := (bo.Op == token.EQL && k.pol) || (bo.Op == token.NEQ && !k.pol) || (bo.Op == token.GTR && !k.pol) || (bo.Op == token.LEQ && k.pol)
-					if !empty {
-						continue
-					}
-					// the measured value derives from a *Dir obtained by asserting the removed node
-					eachInstr(ri.fn, func(b *ssa.BasicBlock, i int, in ssa.Instruction) {
-						if ta, ok := in.(*ssa.TypeAssert); ok && isPtrTo(ta.AssertedType, dirT) {
-							for _, d := range append(resultN(ta, 0), ta) {
-								if derivesFrom(other, d, 0) {
-									okc = true
-								}
+					if bo, ok := k.v.(*ssa.BinOp); ok {
+						var other ssa.Value
+						if kv, ok := constInt(bo.Y); ok && kv == 0 {
+							other = bo.X
+						} else if kv, ok := constInt(bo.X); ok && kv == 0 {
+							other = bo.Y
+						} else {
+							continue
+						}
+						empty := (bo.Op == token.EQL && k.pol) || (bo.Op == token.NEQ && !k.pol) || (bo.Op == token.GTR && !k.pol) || (bo.Op == token.LEQ && k.pol)
+						if !empty {
+							continue
+						}
+						for _, d := range dirAsserts {
+							if derivesFrom(other, d, 0) {
+								okc = true
+								return true
 							}
 						}
-					})
+					}
 				}
+				return false
+			}
+			if !facts.HoldsOnAllEdges(ci.Block, established) {
+				okb, okc = false, false
 			}
 			c.Check(okb || okc, "R3", con, ci.Pos(),
 				map[bool]string{true: "node known not to be a directory", false: "emptiness of the directory established on this path"}[okb],
